@@ -92,6 +92,21 @@ def check(case, ctx):
     if moved:
         ctx.mark_nontrivial(case)
 
+    # the start partition as a plain Python sequence instead of an array: same seeded call, same answer
+    if case.get("ci0") is not None and not hier:
+        other = dict(case)
+        other["ci_as"] = "array" if case.get("ci_as") in ("list", "tuple") else "list"
+        o3, _ = mc.call(other, ctx)
+        if o3.ok:
+            try:
+                if not np.array_equal(np.asarray(o3.value[0]), final):
+                    fails.append(Failure("%s:start-as-list-and-as-array-give-different-results" % name,
+                                         "same arguments and seed, start partition once as ndarray and once as %s" % ("list" if other["ci_as"] == "list" else case.get("ci_as")), case))
+            except Exception:
+                pass
+        elif o3.status != "timeout":
+            fails.append(Failure("crash:%s(start as %s):%s" % (name, other["ci_as"], o3.exc_name()), repr(o3.exc)[:200], case))
+
     # re-feed: output as start never lowers Q
     if name in ("community_louvain", "modularity_finetune_und", "modularity_finetune_dir", "modularity_finetune_und_sign") and not hier:
         o2, _ = mc.call(case, ctx, ci0=final)
